@@ -51,6 +51,10 @@ def run(ctx, res):
     from ..channelarith import rule_linear
     res.guard(rule_linear, prog, res)
     res.require_min("R-LIN", 15)
+    # the inductive cursor invariant, laps included (channelinduct.py)
+    from ..channelinduct import rule_induct
+    res.guard(rule_induct, prog, res)
+    res.require_min("R-INDUCT", 12)
     res.require_min("R-DRAIN", 2)
     # the channel clauses every flush loop depends on (anchored in channel.c)
     res.guard(rule_empty_drained, prog, res)
